@@ -239,6 +239,10 @@ pub fn from(r: &mut Ref, f: &From_) -> String {
             let q = sel(r, s);
             format!("({q}) AS {}", r.id(a))
         }
+        From_::Func(name, args, a) => {
+            let xs: Vec<String> = args.iter().map(|e| x(r, e)).collect();
+            format!("{name}({}) AS {}", xs.join(", "), r.id(a))
+        }
         From_::Values(rows, a) => {
             let rs: Vec<String> = rows
                 .iter()
